@@ -9,6 +9,13 @@ pub const FAMILIES: &[&str] = &[
     "destructuring", "show-transform", "strong", "emph", "list", "enum", "term", "math-delim", "math-call", "math-attach",
     "math-frac", "math-root", "math-code", "equation-in-code", "table-cell", "context", "field-call", "heading-call",
     "trailing-content", "while-body", "return-closure", "spread-arg",
+    // added after seeded change C05-2 (a try-then-fallback layout that converts its arguments twice):
+    // one family per construct that has alternative layouts
+    "plain-chain-arg", "plain-chain-named", "plain-chain-content", "long-chain-arg", "grid-cell", "table-cell-call", "set-arg",
+    "show-selector", "dict-str-key", "paren-key", "two-trailing", "compare", "not", "for-iter", "if-cond", "while-cond",
+    "import-source", "include-source", "math-2d", "math-named", "math-lr", "math-attach-both", "math-prime", "term-term",
+    "ref-supplement", "destruct-assign", "array-spread", "dict-spread", "closure-sink", "let-closure", "set-if", "show-set",
+    "binary-chain-mid", "assign", "field-of-call", "args-mixed",
 ];
 
 /// (mode of the wrapper, mode of the hole): 'c' code, 'm' markup, 'M' math
@@ -16,7 +23,10 @@ fn modes(kind: &str) -> (char, char) {
     match kind {
         "content-block" | "trailing-content" => ('c', 'm'),
         "strong" | "emph" | "list" | "enum" | "term" => ('m', 'm'),
-        "math-delim" | "math-call" | "math-attach" | "math-frac" | "math-root" => ('M', 'M'),
+        "math-delim" | "math-call" | "math-attach" | "math-frac" | "math-root" | "math-2d" | "math-named" | "math-lr"
+        | "math-attach-both" | "math-prime" => ('M', 'M'),
+        "plain-chain-content" | "two-trailing" => ('c', 'm'),
+        "term-term" | "ref-supplement" => ('m', 'm'),
         "math-code" => ('M', 'c'),
         "equation-in-code" => ('c', 'M'),
         "heading-call" => ('m', 'c'),
@@ -66,6 +76,42 @@ fn wrap(kind: &str, x: &str) -> String {
         "trailing-content" => format!("f(1)[{x}]"),
         "return-closure" => format!("() => {{ return {x} }}"),
         "spread-arg" => format!("f(..{x})"),
+        "plain-chain-arg" => format!("aaa.bbb.ccc({x})"),
+        "plain-chain-named" => format!("std.math.vec(k: {x})"),
+        "plain-chain-content" => format!("aaa.bbb.ccc[{x}]"),
+        "long-chain-arg" => format!("long-identifier-name.field-name.another-field.method(1, {x})"),
+        "grid-cell" => format!("grid(columns: (1fr, 1fr), {x}, [b])"),
+        "table-cell-call" => format!("table(columns: 2, [a], table.cell({x}))"),
+        "set-arg" => format!("{{ set text(size: {x}); 1 }}"),
+        "show-selector" => format!("{{ show heading.where(level: {x}): it => it; 1 }}"),
+        "dict-str-key" => format!("(\"k\": {x}, j: 1)"),
+        "paren-key" => format!("(({x}): 1)"),
+        "two-trailing" => format!("f(1)[{x}][b]"),
+        "compare" => format!("{x} == 1 and true"),
+        "not" => format!("not {x}"),
+        "for-iter" => format!("for i in {x} {{ i }}"),
+        "if-cond" => format!("if {x} {{ 1 }}"),
+        "while-cond" => format!("while {x} {{ 1 }}"),
+        "import-source" => format!("{{ import {x}: a, b; a }}"),
+        "include-source" => format!("{{ include {x} }}"),
+        "math-2d" => format!("mat(a, {x}; b, c)"),
+        "math-named" => format!("f(k: {x})"),
+        "math-lr" => format!("lr(({x}))"),
+        "math-attach-both" => format!("a^({x})_b"),
+        "math-prime" => format!("f'({x})"),
+        "term-term" => format!("/ {}: d", x.replace('\n', " ")),
+        "ref-supplement" => format!("@lbl[{}]", x.replace('\n', " ")),
+        "destruct-assign" => format!("{{ (a, b) = {x}; a }}"),
+        "array-spread" => format!("(..{x}, 1)"),
+        "dict-spread" => format!("(..{x}, k: 1)"),
+        "closure-sink" => format!("(..r) => {x}"),
+        "let-closure" => format!("{{ let g(a, b: 1) = {x}; g }}"),
+        "set-if" => format!("{{ set text(red) if {x}; 1 }}"),
+        "show-set" => format!("{{ show: set text(fill: {x}); 1 }}"),
+        "binary-chain-mid" => format!("1 + {x} + 2 * 3 - 4"),
+        "assign" => format!("{{ y = {x}; y }}"),
+        "field-of-call" => format!("f({x}).field.other"),
+        "args-mixed" => format!("f(1, k: {x}, ..r)[t]"),
         _ => format!("({x})"),
     }
 }
